@@ -214,6 +214,72 @@ def strings_worker(args):
     return res
 
 
+# ---- a string is a value whatever its content looks like ----------------------------------------------
+STRING_USES = [
+    ('print', 'print "%s"'),
+    ('variable', 'assign s "%s" print s'),
+    ('macro', 'define m "%s" print m'),
+    ('argument', 'define f with x begin print x end f "%s"'),
+    ('bracketed-argument', 'define f with x begin print x end [f "%s"]'),
+    ('returned', 'define f begin return "%s" end print [f]'),
+    ('in-braces', 'assign s {"%s"} print s'),
+    ('printf-value', 'printf "{}" "%s"'),
+    ('printf-named', 'assign s "%s" printf "{s}"'),
+    ('compared', 'assign s "%s" if {s == "%s"} print 1 else print 0'),
+]
+
+
+def string_use_worker(args):
+    """Every content from the pool -- each lexeme of the language (keywords, registers, operators, brackets, numbers,
+    time patterns), every printable character alone, and solver witnesses of the string language -- as the complete
+    content of a quoted string in every position a value can take: it compiles, and the value is that text."""
+    res = report.WorkResult('strings as values [%s]' % args['label'])
+    world.start_function_trace()
+    res.sites.add('string-use')
+    for content in args['contents']:
+        for use, template in STRING_USES:
+            text = template.replace('%s', content)
+            res.nontrivial += 1
+            net = world.configure()
+            world.uninstall_real_mode()
+            p = Parser()
+            try:
+                ok = p.parse(text)
+            except Exception as ex:
+                res.violation('string-use|%s|compiler-raises' % use, 'compiler raises %s: %s\n  script: %s' % (type(ex).__name__, ex, text), inputs={'script': text}, replayed=True)
+                continue
+            res.reached.add('string-use')
+            if not ok:
+                res.violation('string-use|%s|rejected' % use, 'a quoted string with content %r is not accepted as a value: %s\n  script: %s'
+                              % (content, p.get_errors().strip(), text), inputs={'script': text}, replayed=True)
+                continue
+            m = Machine()
+            m.reset()
+            scripth._instrument(m, 300)
+            m.run(p.get_program())
+            outs = [e[1] for e in net.trace if e[0] == 'out']
+            want = [1] if use == 'compared' else [content]
+            if net.aborted or outs != want:
+                res.violation('string-use|%s|wrong-value' % use, 'a quoted string with content %r used as a value gives %r%s, expected %r\n  script: %s'
+                              % (content, outs, ' (%s)' % net.aborted if net.aborted else '', want, text), inputs={'script': text}, replayed=True)
+    res.sample({'contents': args['contents'][:10], 'uses': [u for u, _ in STRING_USES]})
+    res.functions = world.functions_seen()
+    return res
+
+
+def string_contents(n_witnesses):
+    tr = rx2z3.translate(Lex._LITERAL_STRING_SPEC)
+    s = z3.String('n')
+    noq = z3.InRe(s, z3.Star(z3.Intersect(rx2z3.ASCII, z3.Complement(z3.Union(z3.Re('"'), z3.Re('\n'), z3.Re('\r'), z3.Re(chr(92)))))))
+    pool = list(DOC_KEYWORDS) + DOC_REGISTERS + DOC_ABBREV + BUILTINS
+    pool += ['<', '<=', '>', '>=', '==', '!=', '+', '-', '*', '/', '%', '^', '(', ')', '{', '}', '[', ']', '#', '# c', ':', '*:*', '12:30', '1*:*5',
+             '5', '-5', '2.5', '1e3', '', ' ', '  x  ', '{}', '{0}', '{s}', '{ 1 + 2 }', '[f 1]', 'not 1', '- 1', 'a and b', 'x y', 'If', 'EOF', 'number', 'literal_string']
+    pool += [chr(c) for c in range(32, 127) if chr(c) not in '"' + chr(92)]
+    ws, _ = rx2z3.witnesses(z3.And(noq, z3.Length(s) <= 5, z3.Length(s) >= 2), s, n_witnesses)
+    pool += [rx2z3.decode(w) for w in ws]
+    return list(dict.fromkeys(pool))
+
+
 def numerals_worker(args):
     res = report.WorkResult('numerals')
     world.start_function_trace()
@@ -459,7 +525,7 @@ def bracket_worker(args):
 
 def dispatch(args):
     return {'names': names_worker, 'strings': strings_worker, 'numerals': numerals_worker, 'layout': layout_worker,
-            'brackets': bracket_worker}[args['kind']](args)
+            'brackets': bracket_worker, 'string-use': string_use_worker}[args['kind']](args)
 
 
 def run(tier, seed):
@@ -468,6 +534,9 @@ def run(tier, seed):
     items = [{'kind': 'names', 'collision_limit': 400 if q else 20000, 'witnesses': 3 if q else 25, 'seed': seed},
              {'kind': 'strings', 'witnesses': 3 if q else 20}, {'kind': 'numerals', 'witnesses': 2 if q else 12}, {'kind': 'brackets'}]
     items += [{'kind': 'layout', 'base': b, 'seed': seed, 'vectors': 40 if q else 1500, 'budget_s': 30 if q else 400} for b in BASE]
+    contents = string_contents(6 if q else 60)
+    for i in range(0, len(contents), 20):
+        items.append({'kind': 'string-use', 'label': str(i // 20), 'contents': contents[i:i + 20]})
     results, skipped = report.run_pool(dispatch, items, budget_s=common.tier_budget(tier, 75, 900))
     return report.finish(
         PROP, tier, seed, 'exploration', results, skipped,
@@ -477,7 +546,8 @@ def run(tier, seed):
              'words, and solver witnesses outside it for every length and first-character class, are used as variable, macro, parameter and routine name in compiled and '
              'executed scripts. (3) re-layout: for 10 scripts every token adjacency with every separator (space, tab, line break, run, comment, nothing where an operator/'
              'brace/bracket is involved), seeded whole-layout vectors and abbreviation choices must compile to the same instruction listing. (4) optional call brackets: '
-             'same listing; braces round a single value: same behaviour for all values (symbolic) in 9 value positions',
+             'same listing; braces round a single value: same behaviour for all values (symbolic) in 9 value positions. (5) every lexeme of the language, every printable character and solver '
+             'witnesses of the string language as the complete content of a quoted string in 10 value positions: compiles, and the value is that text',
         assumptions=['identifier classification is table look-up followed by the regex cascade (read from Lex._token_type); strings outside the table region are argued by the '
                      'lemma plus solver witnesses replayed through the real lexer and compiler',
                      'ASCII alphabet; look-behind in the string regex rewritten to an equivalent union (validated against re)'],
